@@ -43,7 +43,8 @@ def scenarios(rng, tier):
             if rng.random() < 0.25: s.frame(0, reset(M)); s.frame(0, discover(M, gen=1, esrc=ME))
     fam_full_lists(s, 'full', RESIDUE_MTUS[::2] if tier == 'quick' else RESIDUE_MTUS)
     fam_mtu_change(s, 'mtuchg', rng, 8 if tier == 'quick' else 150)
-    return [(s.text(), {})]
+    oth = other_iface_variants(s.text(), rng, 10 if tier == 'quick' else 150)
+    return [(s.text(), {}), (oth, {'family': 'other-interface'})]
 def project(blk, name, meta):
     # for a Query: sequence number, destination, how many observations are listed and the more flag (which ones, and in
     # which order, is left to the dictionary oracle: the property does not prescribe it)
@@ -65,12 +66,12 @@ def oracle(name, ib, mb, meta):
             kv = dict(t.split('=', 1) for t in b.op.split()[2:]); mtu = int(kv.get('mtu', mtu)); own = bytes.fromhex(kv.get('mac', own.hex()))
             if kv.get('mtufail') == '1' or mtu == 0: mtu = 1500 if 'c07' != 'c06' else -1   # getter fails: the responder assumes 1500 (an Emit is dropped)
         if tr is None: tr = SeeTracker(own)
-        if not b.op.startswith('frame') or b.fault: continue
+        if not b.op.startswith('frame 0 ') or b.fault: continue
         ctx, fr = frame_of(b); d = dec(fr + bytes(max(0, 36 - len(fr))))
         if d['tos'] != 0: continue
         if d['opc'] in (3, 4): tr.own = own; tr.feed_probe(d)
-        elif d['opc'] == 8: tr.pending.clear()
-        elif d['opc'] == 6:
+        elif d['opc'] == 8: tr.pending.clear(); tr.open = False
+        elif d['opc'] == 6 and not tr.open:
             cap = (mtu - 34) // 20
             sn = sends_of(b)
             q = qresp_fields(sn[0][2]) if len(sn) == 1 else None
@@ -99,7 +100,7 @@ def count(name, lines, ib, stats, meta):
     mtu = 1500; pend = 0
     for b in ib:
         if b.op.startswith('cfg 0'): mtu = int(dict(t.split('=', 1) for t in b.op.split()[2:])['mtu'])
-        if not b.op.startswith('frame'): continue
+        if not b.op.startswith('frame 0 '): continue
         ctx, fr = frame_of(b); d = dec(fr + bytes(max(0, 36 - len(fr))))
         if d['opc'] == 6 and d['tos'] == 0:
             stats['evaluations'] += 1
